@@ -192,6 +192,20 @@ reg(
     "DESIGN.md 4.5 C20",
 )
 
+reg(
+    "C11",
+    "size: every allocation type over a layout family (none / tiled-strided with gaps, padding, offsets, dynamic outermost tiles; widths 1-8 bytes) goes through "
+    "the real memref-to-snax, the emitted size computation is executed for every run-time shape and must cover the highest byte the layout touches "
+    "(independent evaluator). static: every sequence of <= 3 (thorough 4) allocations over size/alignment/memory menus through snax-allocate{static}: aligned, "
+    "disjoint, inside the memory window. minimalloc/auto: every allocation/use history over 2-3 buffers (direct uses, uses through a subview, uses in "
+    "loops, late allocation) with the SOLVER AS ENVIRONMENT: every placement on an offset grid that is valid for the lifetimes the pass declared is fed "
+    "back (25k solver answers in quick), the output is executed, and buffers with intersecting address ranges must never have interleaved uses through "
+    "any view; an inserted dealloc never precedes a later use.",
+    "Trusted: compat/stubs/minimalloc.py (solver contract: half-open lifetimes, any conflict-free aligned placement), machines/layout.py, handlers for the llvm struct ops in checks/C11.py. The real minimalloc package is absent: all valid answers are explored instead of one heuristic answer.",
+    "exhaustive enumeration of operation histories x all environment (solver) answers, executed-trace liveness invariant",
+    "DESIGN.md 4.3 C11",
+)
+
 NOT_APPLICABLE = []
 
 ALL = [f"C{i:02d}" for i in range(1, 21)]
